@@ -346,6 +346,8 @@ pub fn cmp_shape() -> BoxedStrategy<Shape> {
             .prop_map(|(f, o, g)| Shape::Cmp(OperandSpec::Cast("flt", f), o, OperandSpec::Cast("flt", g))),
         1 => (cast_field(), cast_field())
             .prop_map(|(f, g)| Shape::Cmp(OperandSpec::Cast("str", f), "==", OperandSpec::Cast("str", g))),
+        1 => (cast_field(), cast_field())
+            .prop_map(|(f, g)| Shape::Cmp(OperandSpec::Cast("string", f), "==", OperandSpec::Cast("str", g))),
     ]
     .boxed()
 }
@@ -603,6 +605,64 @@ pub fn rule_focus(with_neg: bool) -> BoxedStrategy<RuleSpec> {
         .boxed()
 }
 
+/// Wide or-groups: many entries on one field (around the optimiser's 256-entry matrix guard) or
+/// many distinct fields (matrix column keys beyond the ASCII range), as a sequence identifier.
+pub fn rule_wide() -> BoxedStrategy<RuleSpec> {
+    (prop::sample::select(vec![100usize, 127, 128, 129, 140, 254, 255, 256, 257, 300]), 0u8..3, any::<bool>(), any::<u8>())
+        .prop_map(|(n, kind, negate, salt)| {
+            let mut blocks = vec![];
+            for i in 0..n {
+                let b = match kind {
+                    // one field, numeric comparisons (never merged by shake): count == n
+                    0 => Block(vec![Entry { key: KeySpec::plain("n1"), val: ValSpec::Int(i as i64) }]),
+                    // n distinct fields, each used twice, so that there are n matrix columns
+                    1 => Block(vec![
+                        Entry { key: KeySpec::plain(&format!("w{i}")), val: ValSpec::Int((i % 7) as i64) },
+                        Entry { key: KeySpec::plain(&format!("w{}", (i + 1) % n)), val: ValSpec::Str("a".into()) },
+                    ]),
+                    // conjunctions over two shared fields
+                    _ => Block(vec![
+                        Entry { key: KeySpec::plain("n1"), val: ValSpec::Int((i / 2) as i64) },
+                        Entry { key: KeySpec::plain("f1"), val: ValSpec::Str(format!("{}{}", ["a", "b", "*a*", "ab"][i % 4], i % 3)) },
+                    ]),
+                };
+                blocks.push(b);
+            }
+            let _ = salt;
+            let cond = if negate {
+                CondSpec::Not(Box::new(CondSpec::Ident("A".into())))
+            } else {
+                CondSpec::Ident("A".into())
+            };
+            RuleSpec { idents: vec![("A".to_string(), Body::Seq(blocks))], cond }
+        })
+        .boxed()
+}
+
+/// Documents for wide rules: the leaf-recipe mechanism picks among hundreds of leaves, so a few
+/// direct hits are added.
+pub fn wide_docs(rule: &RuleSpec, picks: &[u16]) -> Vec<DObj> {
+    let leaves = collect_leaves(rule);
+    let mut out = vec![DObj::default()];
+    for p in picks {
+        if leaves.is_empty() {
+            break;
+        }
+        let i = (*p as usize * leaves.len()) >> 16;
+        let mut d = DObj::default();
+        place(&mut d, &leaves[i], Some(value_for(&leaves[i], true, (*p % 7) as u8)), false);
+        // the neighbouring leaf of the same block, so that two-entry blocks can match
+        if i + 1 < leaves.len() {
+            place(&mut d, &leaves[i + 1], Some(value_for(&leaves[i + 1], true, 0)), false);
+        }
+        if i > 0 {
+            place(&mut d, &leaves[i - 1], Some(value_for(&leaves[i - 1], *p % 2 == 0, 0)), false);
+        }
+        out.push(d);
+    }
+    out
+}
+
 // ---------------------------------------------------------------------------------------------
 // Documents
 // ---------------------------------------------------------------------------------------------
@@ -616,6 +676,10 @@ pub fn hay() -> BoxedStrategy<String> {
             "bab", "a.", "é", "É", "aé",
         ])
         .prop_map(|s| s.to_string()),
+        // long haystacks: a needle far from both ends, repeated needles, > 255 bytes
+        1 => ("[abAB]{0,3}", "[abAB]{0,3}", 1usize..6).prop_map(|(pre, needle, reps)| {
+            format!("{pre}{}{}{}", "c".repeat(120), needle.repeat(reps), "c".repeat(150))
+        }),
     ]
     .boxed()
 }
